@@ -15,7 +15,8 @@ package props
 //   - n > 4096: the same on the trailer, the first and last byte of every
 //     buffer and 1024 drawn positions (a decode costs n; all positions would
 //     cost n² ≈ 5 s);
-//   - every truncation to fewer than 12 bytes must be reported;
+//   - every truncation to fewer than 12 bytes must be reported, and so must
+//     drawn values of 4–11 bytes which end in the FNV-1a of their own head;
 //   - truncations to ≥ 12 bytes and two-byte damage are measured (counted when
 //     undetected), never asserted: the checksum has 32 bits.
 
@@ -298,6 +299,20 @@ func TestC15pRecordCodec(t *testing.T) {
 				if err == nil {
 					violate(rt, "C15", "%d bytes (%x) cut from the stored value of %s were accepted as intact", l, cut, desc)
 				}
+			}
+		}
+
+		// Any value shorter than 12 bytes, also one which is consistent in
+		// itself: its last four bytes are the FNV-1a of what precedes them.
+		short := rapid.SliceOfN(rapid.Byte(), 7, 7).Draw(rt, "shortValue")
+		for l := 4; l < 12; l++ {
+			v := append(append([]byte(nil), short[:l-4]...), be32(ownFNV1a32(short[:l-4]))...)
+			_, _, err, pt := decodeGuarded(v)
+			if pt != "" {
+				violate(rt, "C15", "decodeValue panicked on the %d-byte value %x (checksum consistent): %s", l, v, pt)
+			}
+			if err == nil {
+				violate(rt, "C15", "the %d-byte value %x (checksum consistent) was accepted as intact", l, v)
 			}
 		}
 
